@@ -114,6 +114,11 @@ fn default_keytab(n: usize, long_keys: bool) -> Vec<Vec<u8>> {
 	t
 }
 
+/// kinds whose value is live (Set, Replace); the others are tombstones
+fn live_kind(kd: &str) -> bool {
+	kd == "Set" || kd == "Replace"
+}
+
 fn is_empty_val(id: u64) -> bool {
 	id == 3 || id == 1002
 }
@@ -431,6 +436,7 @@ fn build_env(case: &Case, v: &Variant) -> Result<Env, String> {
 				let mut t = tree.begin_with_mode(Mode::WriteOnly).map_err(e)?;
 				match o.kd.as_str() {
 					"Set" => t.set(env.keytab[k].clone(), val_bytes(seq, k)).map_err(e)?,
+					"Replace" => t.replace(env.keytab[k].clone(), val_bytes(seq, k)).map_err(e)?,
 					"Del" => t.delete(env.keytab[k].clone()).map_err(e)?,
 					"SoftDel" => t.soft_delete(env.keytab[k].clone()).map_err(e)?,
 					x => return Err(format!("bad kind {x}")),
@@ -440,7 +446,7 @@ fn build_env(case: &Case, v: &Variant) -> Result<Env, String> {
 				let l = mems.len() - 1;
 				mems[l] = mems[l].max(k);
 				if env.txn.is_none() {
-					latest[k] = Some(o.kd == "Set");
+					latest[k] = Some(live_kind(&o.kd));
 				}
 				if v.pins {
 					env.pins.push(tree.begin_with_mode(Mode::ReadOnly).map_err(e)?);
@@ -467,6 +473,7 @@ fn build_env(case: &Case, v: &Variant) -> Result<Env, String> {
 				let t = env.txn.as_mut().ok_or("ws before begin")?;
 				match o.kd.as_str() {
 					"Set" => t.set(env.keytab[k].clone(), val_bytes(o.b as u64, k)).map_err(e)?,
+					"Replace" => t.replace(env.keytab[k].clone(), val_bytes(o.b as u64, k)).map_err(e)?,
 					"Del" => t.delete(env.keytab[k].clone()).map_err(e)?,
 					"SoftDel" => t.soft_delete(env.keytab[k].clone()).map_err(e)?,
 					x => return Err(format!("bad kind {x}")),
@@ -591,7 +598,7 @@ fn classify(env: &Env, case: &Case, sess: &[Op], i: usize, lo: i64, hi: i64) -> 
 			return false;
 		}
 		let e = cur.k as usize;
-		let on_ws = env.ws_kind[e] == "Set" && !env.snap_live[e];
+		let on_ws = live_kind(&env.ws_kind[e]) && !env.snap_live[e];
 		let exhausted = if c == "prev" {
 			!(e..=case.nkeys).any(|k| env.snap_live[k] && inr(k))
 		} else {
@@ -1122,8 +1129,13 @@ fn run_chunk_child(exe: &Path, chunk_path: &Path, timeout: Duration) -> (Vec<Val
 	(results, Some((idx, var, how)))
 }
 
+/// After this many hangs / aborts the run stops: every further one costs a full timeout, and the
+/// verdict is settled anyway.
+const MAX_DEAD_WORKERS: usize = 6;
+
 fn run_jobs(jobs: Vec<Job>, njobs: usize, tot: &mut Totals, timeout: Duration) {
 	let exe = std::env::current_exe().unwrap();
+	let dead = std::sync::atomic::AtomicUsize::new(0);
 	let dir = verif_harness::scratch_dir("curchunk");
 	let by_idx: HashMap<usize, &Job> = jobs.iter().map(|j| (j.idx, j)).collect();
 	// keep recipe groups together: sort by recipe, cut into chunks at group boundaries
@@ -1158,10 +1170,13 @@ fn run_jobs(jobs: Vec<Job>, njobs: usize, tot: &mut Totals, timeout: Duration) {
 	std::thread::scope(|s| {
 		for _ in 0..njobs {
 			s.spawn(|| loop {
+				if dead.load(std::sync::atomic::Ordering::SeqCst) >= MAX_DEAD_WORKERS {
+					break;
+				}
 				let next = chunks.lock().unwrap().pop();
 				let Some((cid, mut items)) = next else { break };
 				let mut attempt = 0;
-				while !items.is_empty() {
+				while !items.is_empty() && dead.load(std::sync::atomic::Ordering::SeqCst) < MAX_DEAD_WORKERS {
 					attempt += 1;
 					let path: PathBuf = dir.path().join(format!("chunk{cid}_{attempt}.ndjson"));
 					{
@@ -1190,6 +1205,7 @@ fn run_jobs(jobs: Vec<Job>, njobs: usize, tot: &mut Totals, timeout: Duration) {
 					match died {
 						None => break,
 						Some((idx, var, how)) => {
+							dead.fetch_add(1, std::sync::atomic::Ordering::SeqCst);
 							if idx != usize::MAX {
 								let class = if how.starts_with("hang") { "hang" } else { "abort" };
 								results.lock().unwrap().push(json!({"idx": idx, "variant": var, "calls": 0, "drift": [], "trace": [],
@@ -1206,6 +1222,9 @@ fn run_jobs(jobs: Vec<Job>, njobs: usize, tot: &mut Totals, timeout: Duration) {
 			});
 		}
 	});
+	if dead.load(std::sync::atomic::Ordering::SeqCst) >= MAX_DEAD_WORKERS {
+		tot.sum.extra.insert("stopped_early".into(), json!(format!("{MAX_DEAD_WORKERS} workers hung or aborted")));
+	}
 	let mut seen: HashSet<(usize, u64)> = HashSet::new();
 	for r in results.into_inner().unwrap() {
 		// a case re-run after a crash of its chunk may report twice
@@ -1362,7 +1381,7 @@ fn cmd_replay(args: &[String]) {
 	}
 	tot.sum.cases = jobs.len() as u64;
 	let t0 = Instant::now();
-	run_jobs(jobs, njobs, &mut tot, Duration::from_secs(60));
+	run_jobs(jobs, njobs, &mut tot, Duration::from_secs(arg(args, "--case-timeout", 15)));
 	finish(tot, json!({"mode": "replay", "skipped_layout_only_cases": skipped, "distinct_last_call_outcomes": last_pairs.len(),
 		"distinct_recipes": recipe_variant.len(), "wall_s": t0.elapsed().as_secs_f64()}));
 }
@@ -1432,7 +1451,7 @@ fn gen_case(rng: &mut StdRng, max_keys: usize) -> Case {
 		pred: None,
 		taint: String::new(),
 	};
-	let kinds = ["Set", "Set", "Set", "Del", "SoftDel"];
+	let kinds = ["Set", "Set", "Set", "Del", "SoftDel", "Set", "Replace", "Set", "Del", "SoftDel"];
 	// data lives on a subset of the keys; the others are only bounds / targets
 	let data: Vec<usize> = (1..=nkeys).filter(|_| rng.random_range(0..5) != 0).collect();
 	let data = if data.is_empty() { vec![1] } else { data };
@@ -1515,14 +1534,14 @@ fn gen_case(rng: &mut StdRng, max_keys: usize) -> Case {
 	for k in 1..=nkeys {
 		live[k] = match (&wsv[k], &snap[k]) {
 			(Some((kd, id)), _) => {
-				if kd == "Set" {
+				if live_kind(kd) {
 					*id as i64
 				} else {
 					0
 				}
 			}
 			(None, Some((kd, s))) => {
-				if kd == "Set" {
+				if live_kind(kd) {
 					*s as i64
 				} else {
 					0
@@ -1660,7 +1679,7 @@ fn cmd_random(args: &[String]) {
 	}
 	tot.sum.cases = jobs.len() as u64;
 	let t0 = Instant::now();
-	run_jobs(jobs, njobs, &mut tot, Duration::from_secs(60));
+	run_jobs(jobs, njobs, &mut tot, Duration::from_secs(arg(args, "--case-timeout", 15)));
 	finish(tot, json!({"mode": "random", "seed": seed, "wall_s": t0.elapsed().as_secs_f64()}));
 }
 
@@ -1689,7 +1708,7 @@ fn cmd_one(args: &[String]) {
 		}],
 		1,
 		&mut tot,
-		Duration::from_secs(60),
+		Duration::from_secs(arg(args, "--case-timeout", 15)),
 	);
 	finish(tot, json!({"mode": "one"}));
 }
@@ -1699,62 +1718,67 @@ fn cmd_one(args: &[String]) {
 // feeds the answers into the Bug* constants of Cursor.tla so that the model always describes
 // the code as it is (DESIGN 6: the spec models the code; a repaired defect switches its flag off).
 
-fn probe_case(ops: Value, live: Value, nkeys: usize) -> bool {
-	// true = the case shows a violation
-	let case = Case::from(&json!({"ops": ops, "live": live, "nkeys": nkeys}), "probe").expect("probe case");
-	let v = variant(0);
-	let r = verif_harness::catch(|| -> Result<bool, String> {
-		let env = build_env(&case, &v)?;
-		let r = run_case_on(&env, &case, false, false);
-		Ok(!r.violations.is_empty())
-	});
-	match r {
-		Ok(Ok(b)) => b,
-		_ => true,
-	}
-}
-
 fn cmd_probe() {
-	verif_harness::quiet_panics();
 	let call = |op: &str, t: i64, valid: i64, k: i64, v: i64| json!([op, t, valid, k, v, valid, k, v, ""]);
-	// absent upper bound: the cursor over {k1} must show k1
-	let none_bound = probe_case(
-		json!([["commit", 1, "Set"], ["begin"], ["open", 0, 0, "Ok", ""], call("first", 0, 1, 1, 1)]),
-		json!([1, 0, 0]),
-		3,
-	);
-	// inverted range: with a pending write, and with a table on level 1 and no pending write
-	let inv_ws = probe_case(
-		json!([["commit", 1, "Set"], ["begin"], ["ws", 2, 1001, "Set"], ["open", 3, 1, "Ok", ""], call("first", 0, 0, 0, 0)]),
-		json!([1, 1001, 0]),
-		3,
-	);
-	let inv_lvl = probe_case(
-		json!([["commit", 1, "Set"], ["rotate"], ["flush"], ["compact", 0], ["begin"], ["open", 3, 1, "Ok", ""], call("first", 0, 0, 0, 0)]),
-		json!([1, 0, 0]),
-		3,
-	);
-	// direction change on a write-set entry while the snapshot side is exhausted
-	let switch = probe_case(
-		json!([["commit", 1, "Set"], ["begin"], ["ws", 2, 1001, "Set"], ["open", 1, 3, "Ok", ""], call("seek", 2, 1, 2, 1001), call("prev", 0, 1, 1, 1)]),
-		json!([1, 1001, 0]),
-		3,
-	);
-	// seek_last after a forward run has met a memtable entry at / past the upper bound
-	let mem_last = probe_case(
-		json!([["commit", 1, "Set"], ["commit", 3, "Set"], ["begin"], ["open", 1, 2, "Ok", ""], call("first", 0, 1, 1, 1), call("next", 0, 0, 0, 0), call("last", 0, 1, 1, 1)]),
-		json!([1, 0, 2]),
-		3,
-	);
-	let mut sum = Summary::new("cursor_run");
-	sum.cases = 5;
-	sum.extra.insert("mode".into(), json!("probe"));
-	sum.extra.insert(
-		"flags".into(),
-		json!({"BugNoneBound": none_bound, "BugInverted": inv_ws || inv_lvl, "BugSwitch": switch, "BugMemLast": mem_last}),
-	);
-	sum.extra.insert("inverted_sites".into(), json!({"write_set_range": inv_ws, "level_table_slice": inv_lvl}));
-	sum.print();
+	let cases: Vec<(&str, Value, Value)> = vec![
+		// absent upper bound: the cursor over {k1} must show k1
+		(
+			"none_bound",
+			json!([["commit", 1, "Set"], ["begin"], ["open", 0, 0, "Ok", ""], call("first", 0, 1, 1, 1)]),
+			json!([1, 0, 0]),
+		),
+		// inverted range: with a pending write, and with a table on level 1 and no pending write
+		(
+			"inv_ws",
+			json!([["commit", 1, "Set"], ["begin"], ["ws", 2, 1001, "Set"], ["open", 3, 1, "Ok", ""], call("first", 0, 0, 0, 0)]),
+			json!([1, 1001, 0]),
+		),
+		(
+			"inv_lvl",
+			json!([["commit", 1, "Set"], ["rotate"], ["flush"], ["compact", 0], ["begin"], ["open", 3, 1, "Ok", ""], call("first", 0, 0, 0, 0)]),
+			json!([1, 0, 0]),
+		),
+		// direction change on a write-set entry while the snapshot side is exhausted
+		(
+			"switch",
+			json!([["commit", 1, "Set"], ["begin"], ["ws", 2, 1001, "Set"], ["open", 1, 3, "Ok", ""], call("seek", 2, 1, 2, 1001), call("prev", 0, 1, 1, 1)]),
+			json!([1, 1001, 0]),
+		),
+		// seek_last after a forward run has met a memtable entry at / past the upper bound
+		(
+			"mem_last",
+			json!([["commit", 1, "Set"], ["commit", 3, "Set"], ["begin"], ["open", 1, 2, "Ok", ""], call("first", 0, 1, 1, 1), call("next", 0, 0, 0, 0), call("last", 0, 1, 1, 1)]),
+			json!([1, 0, 2]),
+		),
+	];
+	let mut tot = new_totals("");
+	let jobs: Vec<Job> = cases
+		.iter()
+		.enumerate()
+		.map(|(idx, (_, ops, live))| Job {
+			idx,
+			raw: json!({"ops": ops, "live": live, "nkeys": 3, "origin": "probe"}).to_string(),
+			key: format!("#{idx}"),
+			variants: vec![0],
+			probes: false,
+			trace: false,
+		})
+		.collect();
+	tot.sum.cases = jobs.len() as u64;
+	// the code under test runs in child processes: a probe that hangs or aborts counts as "shows the defect"
+	run_jobs(jobs, 4, &mut tot, Duration::from_secs(15));
+	let bad = |name: &str| -> bool {
+		let idx = cases.iter().position(|c| c.0 == name).unwrap();
+		tot.violating_cases.contains(&idx)
+	};
+	let flags = json!({"BugNoneBound": bad("none_bound"), "BugInverted": bad("inv_ws") || bad("inv_lvl"),
+		"BugSwitch": bad("switch"), "BugMemLast": bad("mem_last")});
+	let sites = json!({"write_set_range": bad("inv_ws"), "level_table_slice": bad("inv_lvl")});
+	// only hangs / aborts are reported from here; the defects themselves are reported by the cases TLC exports
+	tot.sum.violations.retain(|v| matches!(v["signature"]["class"].as_str(), Some("hang") | Some("abort")));
+	tot.sum.violation_count = tot.sum.violations.len() as u64;
+	tot.classes.retain(|k, _| k == "hang" || k == "abort");
+	finish(tot, json!({"mode": "probe", "flags": flags, "inverted_sites": sites}));
 }
 
 fn main() {
